@@ -336,12 +336,21 @@ def run(prop, tier, seed, replay=None):
              'steps': [fstep('connect', [1], 'ok'), fstep('open', [1, 1], 'ok'), fstep('write', [0, 1, 1, 1], 'ok'),
                        dict(fstep('accept', [], 'conn'), rn=[1, 1]), fstep('race_write_sclose', [1, 1, 1], 'ok'),
                        fstep('accept', [], 'park')]}
+    # staged: a stream that arrives AFTER listener.Close on a session kept alive by an accepted, open conn. The accept
+    # loop wraps it and Go's select picks at random between closeCh and the backlog; either way nobody can accept it, so
+    # once the accepted conn is closed the session must end. 14 independent worlds beat the coin (miss < 1e-4).
+    def late_path(i):
+        return {'name': 'late-stream-%d' % i, 'ns': 1, 'nk': 2, 'bcap': 4, 'unit': [1, 64, 1000][i % 3], 'small': i % 2 == 0,
+                'steps': [fstep('connect', [1], 'ok'), fstep('open', [1, 1], 'ok'), fstep('write', [0, 1, 1, 2], 'ok'),
+                          dict(fstep('accept', [], 'conn'), rn=[1, 1]), fstep('lclose', [], 'first'),
+                          fstep('open', [1, 2], 'ok'), fstep('write', [0, 1, 2, 2], 'ok'), fstep('sclose', [1, 1], 'ok')]}
+    late_paths = [late_path(i) for i in range(14)]
     probes = {}
 
     def probe_run(key, paths):
         probes[key] = gorun.run_harness('^TestVS_NetListener$', HARNESS, None, timeout=180, inputs={'job': {
-            'graphs': [], 'paths': paths, 'seed': ck.seed, 'workers': 1, 'budget_ms': 60000, 'known': True,
-            'units': [3]}})
+            'graphs': [], 'paths': paths, 'seed': ck.seed, 'workers': 1 if len(paths) < 4 else 7, 'budget_ms': 60000,
+            'known': True, 'units': [3]}})
 
     def tlc_round(fixed):
         graphs = [dict(g) for g in QUICK_GRAPHS + (THOROUGH_GRAPHS if ck.tier == 'thorough' else [])]
@@ -374,8 +383,9 @@ def run(prop, tier, seed, replay=None):
 
     graphs, built, errs, design, ths = tlc_round(False)
     pths = [threading.Thread(target=probe_run, args=('orphan', [probe, ghost])),
-            threading.Thread(target=probe_run, args=('dw', [dwprobe]))]
-    ck.log('TLC: %d graph configs + %d design configs; 3 probes of the real code' % (len(graphs), len(ths) - len(graphs)))
+            threading.Thread(target=probe_run, args=('dw', [dwprobe])),
+            threading.Thread(target=probe_run, args=('late', late_paths))]
+    ck.log('TLC: %d graph configs + %d design configs; 4 probes of the real code' % (len(graphs), len(ths) - len(graphs)))
     for t in ths + pths:
         t.start()
     for t in ths + pths:
@@ -403,6 +413,33 @@ def run(prop, tier, seed, replay=None):
                          {'kind': 'path', 'path': ghost, 'detail': ghost_v[0]['detail'], 'slug': SLUG_GH})
     elif listed_gh:
         ck.notes.append('the listed known finding %s no longer reproduces on this tree' % SLUG_GH)
+    # late stream after listener.Close (same class as backlog-orphan: "... or that arrives after Close()")
+    gl = probes.get('late')
+    if gl is not None and gl.result is None and crash_analysis(ck, gl, None, True, cands=late_paths[:3]):
+        return ck.finish()
+    if gl is None or gl.result is None or gl.result.get('paths', 0) == 0:
+        ck.inconc('the late-stream probe could not be executed on the real code: %s' %
+                  ((gl.out[-600:] if gl is not None else '') if gl is None or gl.result is None else json.dumps(gl.result)[:400]))
+        return ck.finish()
+    ck.cov['late_stream_probe'] = {'worlds': gl.result['paths'], 'session_pinned_in': gl.result.get('known_hits', 0),
+                                   'abandoned_handshake_timeout': gl.result.get('env_aborted', 0)}
+    for v in gl.result.get('violations') or []:
+        ck.violation('%s: %s' % (v['kind'], v['detail']), {'kind': 'path', 'path': v['path'], 'detail': v['detail']})
+    for d in gl.result.get('drift') or []:
+        print('SPEC-DRIFT module=NetListener at=%s' % d[:600])
+    lw = gl.result.get('known_witness')
+    if lw and not fixed:
+        pass    # the pinned listener: this is the backlog-orphan class, handled below with the walk's witness
+    elif lw:
+        what = ('a stream that reached the adapter after listener.Close() (session kept alive by an accepted conn) was left '
+                'wrapped in the backlog: after the accepted conn is closed the session stays open (%d of %d worlds)'
+                % (gl.result['known_hits'], gl.result['paths']))
+        if listed:
+            ck.known(SLUG, '%s [late-stream variant reproduced: %s]' % (known.get((prop, SLUG), ''), what))
+        else:
+            ck.violation('session-pinned-by-unsurfaced-stream: %s  (history: Connect ; OpenStream ; Write ; Accept ; '
+                         'listener.Close ; OpenStream ; Write ; conn.Close)' % what,
+                         {'kind': 'path', 'path': lw['path'], 'detail': what, 'slug': SLUG})
     if fixed:
         ck.log('the tree has the repaired listener: TLC again with Feat + drainfix')
         graphs, built, errs, design, ths = tlc_round(True)
@@ -591,7 +628,10 @@ def do_replay(ck, path, listed):
                              (QUICK_GRAPHS[0]['name'], tr.distinct, tr.generated, 'ok' if tr.ok else (tr.violation or 'not finished'))]
     ck.add('traces_validated_against_impl', 0)
     ck.sample({'replayed': [st.get('label') for st in p['steps']]})
-    job = {'graphs': [], 'paths': [p], 'seed': ck.seed, 'workers': 1, 'budget_ms': 60000,
+    reps = [p]
+    if str(p.get('name', '')).startswith('late-stream'):
+        reps = [dict(p, name='%s-r%d' % (p['name'], i)) for i in range(12)]   # Go's select flips a coin in this history
+    job = {'graphs': [], 'paths': reps, 'seed': ck.seed, 'workers': min(6, len(reps)), 'budget_ms': 60000,
            'known': listed and rep.get('slug') != SLUG, 'units': [p.get('unit', 1)]}
     g = gorun.run_harness('^TestVS_NetListener$', HARNESS, None, inputs={'job': job}, timeout=180)
     ck.cov['evaluations'] = 1
